@@ -374,6 +374,8 @@ class SolverSpec(corevc.Spec):
         if isinstance(f, SV) and f.kind == 'obj':
             # calling a form class: self._form_map[form_name](solver=self, instance=...)
             return self.new_form(it, f, kwargs, node)
+        if f is isinstance and len(args) == 2 and isinstance(args[0], Opaque) and args[1] in (list, tuple, dict, set, frozenset, str, int, float, bool, bytes):
+            return False      # the objects of the contract view are instances of habutax classes, never of a builtin container or scalar
         if f is isinstance and len(args) == 2 and isinstance(args[0], Opaque) and isinstance(args[1], type):
             # the class of an object the contract view does not construct: an uninterpreted predicate of the object
             return SV('bool', z3.Function(f'is_instance_{args[1].__name__}', OBJ, z3.BoolSort())(args[0].ref))
@@ -596,6 +598,11 @@ def attempt_field_contract(spec):
         for label, g in invariant(s0):
             it.oblige(f'call@{it.site(node)}/_attempt_field/requires/{label}', g)
         it.ghost['inflight'] = old_inflight
+        if spec.unit == '_attempt_field' and it.ghost.get('oracle_key') is not None:
+            # the retry after a missing declaration terminates because the declaration is there now: the same evaluation cannot
+            # report it missing again (C06 work bound, C10 "no unbounded recursion")
+            it.oblige(f'call@{it.site(node)}/_attempt_field/requires/a-line-is-retried-only-once-the-missing-declaration-is-loaded',
+                      s0.IM.has[it.ghost['oracle_key']])
         pre = St(me.snap(), dict(it.ghost))
         # outcome: returns normally or propagates an exception that is not one of the handled four
         if it.run.branch(fresh('attempt_raises', z3.BoolSort()), where=f'attempt-raises@{node.lineno}'):
